@@ -44,7 +44,7 @@ var tokText = map[string]map[string]string{
 	"srt": {
 		"idx": "1", "junk": "chapter", "blank": "", "timing": "00:00:01,000 --> 00:00:02,000", "timing-noend": "00:00:01,000 --> ",
 		"timing-nostart": " --> 00:00:02,000", "timing-bad": "x --> y", "arrow": "-->", "text": "Hello", "text-tags": "<b><i>x</b></u><font color=>y",
-		"text-arrow": "a --> b --> c", "bom": "\xef\xbb\xbf",
+		"text-arrow": "a --> b --> c", "bom": "\xef\xbb\xbf", "timing-2arrows": "00:00:01,000 --> --> 00:00:02,000",
 	},
 	"vtt": {
 		"header": "WEBVTT", "header-bad": "WEBVT", "blank": "", "note": "NOTE hello", "note-bare": "NOTE", "style": "STYLE", "css": "::cue { color: red }",
@@ -52,6 +52,7 @@ var tokText = map[string]map[string]string{
 		"timing-noend": "00:00:01.000 --> ", "timing-nostart": " --> 00:00:02.000", "timing-badset": "00:00:01.000 --> 00:00:02.000 align line:",
 		"timing-unkregion": "00:00:01.000 --> 00:00:02.000 region:nobody", "tsmap": "X-TIMESTAMP-MAP=LOCAL:00:00:00.000,MPEGTS:900000",
 		"tsmap-bad": "X-TIMESTAMP-MAP=LOCAL,MPEGTS:x", "text": "Hello", "text-unbalanced": "</b></i><c.x><v>a</c></c></c>", "text-v": "<v Bob><v>hi", "text-ts": "a<00:00:01.500><99:99>b<00:00:0x.000>",
+		"timing-2arrows": "00:00:01.000 --> --> 00:00:02.000",
 	},
 	"ssa": {
 		"sec-info": "[Script Info]", "sec-styles": "[V4+ Styles]", "sec-events": "[Events]", "sec-unknown": "[Fonts]", "info": "Title: x", "info-badnum": "PlayResX: abc",
@@ -67,6 +68,7 @@ var tokText = map[string]map[string]string{
 		"p-br": `<p begin="1s" end="2s"><br/><br/>x<br/></p>`, "p-nested": `<p begin="1s" end="2s"><span>a<span>b<br/>c</span></span></p>`, "p-empty": `<p begin="75f" end="100000t"/>`,
 		"style": `<style xml:id="s1" tts:color="red"/>`, "style-unkparent": `<style xml:id="s2" style="nobody"/>`, "style-selfparent": `<style xml:id="s3" style="s3"/>`,
 		"region": `<region xml:id="r1" style="s1"/>`, "region-unkstyle": `<region xml:id="r2" style="nobody"/>`, "meta": `<metadata><ttm:title>T</ttm:title></metadata>`, "junk-element": `<foo bar="1"><p/></foo>`,
+		"style-1token": `<style xml:id="s4" tts:extent="auto" tts:origin="100%" tts:fontSize="x"/>`,
 	},
 }
 
